@@ -74,6 +74,58 @@ pub fn class_cells(depth: u8) -> Vec<u64> {
   v
 }
 
+/// Carry-chain coordinates: 2^k - 1 and 2^k for every k < depth (every length of a run of ones in
+/// the low bits, and the coordinate just after it): +-1 steps on them ripple through exactly k bits.
+pub fn carry_coords(depth: u8) -> Vec<u32> {
+  let n = 1u64 << depth;
+  let mut v: Vec<u64> = vec![];
+  for k in 1..depth as u32 {
+    v.push((1u64 << k) - 1);
+    v.push(1u64 << k);
+    // a run of k ones above a zero bit, below a one: ...1 0 1..1
+    if k + 2 <= depth as u32 {
+      v.push((1u64 << (k + 1)) | ((1u64 << k) - 1));
+    }
+  }
+  v.retain(|&x| x < n);
+  v.sort();
+  v.dedup();
+  v.into_iter().map(|x| x as u32).collect()
+}
+
+/// Cells whose two coordinates are carry-chain coordinates.  `cross`: the full product in every
+/// base cell (cheap checks); otherwise a thin set (diagonal, next pattern, the four borders) in one
+/// base cell per region.
+pub fn carry_cells(depth: u8, cross: bool) -> Vec<u64> {
+  let p = carry_coords(depth);
+  let n = 1u32 << depth;
+  let mut v = vec![];
+  if p.is_empty() {
+    return v;
+  }
+  if cross {
+    for d0h in 0..12u8 {
+      for &i in &p {
+        for &j in &p {
+          v.push(encode(depth, d0h, i, j));
+        }
+      }
+    }
+  } else {
+    for d0h in [1u8, 6, 11] {
+      for (k, &a) in p.iter().enumerate() {
+        let b = p[(k + 1) % p.len()];
+        for (i, j) in [(a, a), (a, b), (b, a), (a, 0), (0, a), (a, n - 1), (n - 1, a)] {
+          v.push(encode(depth, d0h, i, j));
+        }
+      }
+    }
+  }
+  v.sort();
+  v.dedup();
+  v
+}
+
 /// N points spread over the whole sphere (Fibonacci lattice): generic positions, away from
 /// every border class.
 pub fn fibonacci_points(n: usize) -> Vec<(f64, f64)> {
